@@ -350,7 +350,23 @@ func c13Random(s Src, tier string) *Case {
 		n = 16
 	}
 	fresh := Chance(s, "fresh", 1, 40)
-	switch s.Int("family", 0, 12) {
+	switch s.Int("family", 0, 14) {
+	case 13, 14:
+		// an interactive session (same bytes on stdin, same delivery) under different schedules
+		k := s.Int("nlines", 2, 8)
+		var ls []string
+		for i := 0; i < k; i++ {
+			l := c20Pool[s.Int("line", 0, len(c20Pool)-1)]
+			if len(l.text) > 300 {
+				l = c20Pool[0]
+			}
+			ls = append(ls, l.text)
+		}
+		ls = append(ls, KwVar+" ob = {zeta: 1, alpha: 2, mid: 3}; "+KwPrint+" "+FnKeys+"(ob); "+KwPrint+" ob.nothere;")
+		stdin := strings.Join(ls, "\n") + "\n"
+		cs := &Case{Prop: "C13", Kind: "repl-session", Sig: "repl-session", Program: stdin, Aux: &Aux{C13: &C13Expect{Source: "repl"}}}
+		cs.Runs = c13Schedules(s, replCfg(stdin), n, 40, fresh)
+		return cs
 	case 10, 11, 12:
 		prog, e := c13DiagProgram(s)
 		return c13Case(s, "diag-heavy", prog, "", e, n, fresh)
